@@ -169,6 +169,24 @@ class Split:
         self.classes.add("step-only segment")
         return None
 
+    def aftermath(self, limit=300):
+        """the run was left by the exception of an unhandled failure; the environment stays usable: stepping on must still
+        process what is pending in agenda order (C01 clauses of the tracing environment), raise exactly the unhandled failures"""
+        env, h = self.env, self.h
+        env.h_abandon_until()
+        n = 0
+        while env.peek() != inf and n < limit:
+            r = self.call(env.step)
+            n += 1
+            if r[0] == "exc":
+                kdsl._judge_raise(env, self.interp, r[1])
+                continue
+            occ = h.cur_occ
+            if occ is not None and kdsl.predicted_unhandled(occ) is True:
+                raise Violation("C02.failure_lost", "unhandled failure did not raise in step() (after an earlier raise)",
+                                "C02.failure_lost/aftermath")
+        return n
+
     def finish(self):
         env = self.env
         r = self.call(lambda: env.run())
@@ -233,7 +251,6 @@ def run_split(case):
     if ended == "exhausted" and sp.env.peek() != inf:
         ended = sp.finish()
     kdsl.end_checks(sp.interp, ended == "exhausted")
-    sp.interp.finished = True
     res = kdsl.RunResult()
     res.h, res.interp, res.env, res.ended = sp.h, sp.interp, sp.env, ended
     got = kdsl.trace_of(res)
@@ -245,6 +262,10 @@ def run_split(case):
         raise Violation("C03.split_equiv", f"traces differ at entry {i}: single run {a[i:i+2]}, split run {b[i:i+2]}",
                         "C03.split_equiv/trace")
     classes = set(sp.classes)
+    if isinstance(ended, tuple) and ended and ended[0] == "raised":
+        if sp.aftermath() >= 3:
+            classes.add("stepped on after run() raised")
+    sp.interp.finished = True
     if sp.stops >= 2:
         classes.add(">=2 effective stops")
     return {"nontrivial": sp.stops >= 2 and sp.busy_stops >= 1, "classes": sorted(classes)}
@@ -381,7 +402,9 @@ PROP = Property(
           "run()); oracle: ValueError for t<=now with no effect; on return now==t, everything due <t processed, nothing due "
           ">=t processed; run(until=event) returns the event's value in the very step that processed it (no step when already "
           "processed; RuntimeError when never triggered); concatenated trace == trace of one uninterrupted harness-stepped "
-          "run (metamorphic), with all C01/C02/C04 bookkeeping clauses live in both. Non-trivial = >=2 effective stops of "
+          "run (metamorphic), with all C01/C02/C04 bookkeeping clauses live in both; when a leg is left by the exception of an "
+          "unhandled failure the environment is stepped on with the same clauses live (whether the kernel keeps or removes the "
+          "abandoned stop is not judged). Non-trivial = >=2 effective stops of "
           "which >=1 at an instant with other due occurrences or on an event with waiters. (twice) same program executed "
           "twice in-process. (hashseed_batch) a batch of generated programs and network scenarios re-executed in fresh "
           "interpreters under several PYTHONHASHSEED values, SHA-256 of traces compared. (net_split) generated network pipelines "
@@ -390,7 +413,8 @@ PROP = Property(
     facets=[Facet("split", split_strategy, run_split, quick=2500, thorough=15000,
                   essential=["stop at busy instant", "until-event with earlier waiters", "until-event with later waiters",
                              "step-only segment", "stop at float-inexact offset",
-                             "illegal stop refused", "until-event already processed", "until-event never triggered"]),
+                             "illegal stop refused", "until-event already processed", "until-event never triggered",
+                             "stepped on after run() raised"]),
             Facet("twice", prog_strategy, run_twice, quick=300, thorough=2000),
             Facet("net_split", _net_split_strategy, _run_net_split, quick=600, thorough=3000,
                   essential=["network scenario split", "scenario with monitors"])],
